@@ -302,22 +302,25 @@ class Runner:
         self.counter = itertools.count(1)
         self.tab = {**option_table(), **E2E_EXTRA}
 
-    def _dir(self, pyproject: dict | None) -> Path:
+    def _dir(self, pyproject: dict | None, raw_keys: dict | None = None) -> Path:
+        """`pyproject`: dest → canonical text, written under the kebab-case key; `raw_keys`: literal key → TOML value"""
         d = self.root / f"r{next(self.counter)}"
         d.mkdir()
         (d / ".git").mkdir()
         (d / "s.json").write_text(json.dumps(DOC))
         (d / "aliases.json").write_text(json.dumps({"shopName": "shop_name_", "petName": "pet"}))
-        if pyproject is not None:
+        if pyproject is not None or raw_keys:
             lines = ["[tool.datamodel-codegen]"]
-            for k, v in pyproject.items():
+            for k, v in (pyproject or {}).items():
                 val = py_value(self.tab[k]["kind"], v)
                 lines.append(f"{k.replace('_', '-')} = {json.dumps(val)}")
+            for k, val in (raw_keys or {}).items():
+                lines.append(f"{json.dumps(k)} = {json.dumps(val)}")
             (d / "pyproject.toml").write_text("\n".join(lines) + "\n")
         return d
 
-    def cli(self, cli: dict, pyproject: dict | None = None, extra_argv: list[str] | None = None) -> dict:
-        d = self._dir(pyproject)
+    def cli(self, cli: dict, pyproject: dict | None = None, extra_argv: list[str] | None = None, raw_keys: dict | None = None) -> dict:
+        d = self._dir(pyproject, raw_keys)
         argv = ["-m", "datamodel_code_generator", "--input", "s.json", "--output", "out.py", "--input-file-type", "jsonschema", "--disable-timestamp"]
         for k, v in cli.items():
             argv += argv_of(self.tab, k, v)
@@ -459,6 +462,69 @@ def campaign_three_ways(ck: Check, rn: Runner) -> dict:
     return cache
 
 
+def alias_spellings() -> list[tuple[str, str, str]]:
+    """(dest, kind, alternative long flag) for every option the argument parser accepts under more than one spelling"""
+    out = []
+    for a in cli_tables.actions():
+        if a["dest"] in META:
+            continue
+        longs = [f for f in a["flags"] if f.startswith("--")]
+        for alt in longs[1:]:
+            out.append((a["dest"], a["kind"], alt))
+    return out
+
+
+def alias_case(ck: Check, camp, rn: Runner, dest: str, alt_flag: str, value: str) -> None:
+    """every spelling of an option that the command line accepts is accepted as a pyproject.toml key (kebab- and
+    snake-case) and gives what the primary flag gives"""
+    tab = rn.tab
+    val = py_value(tab[dest]["kind"], value)
+    key = alt_flag[2:]
+    extra = [alt_flag] if tab[dest]["kind"] == "bool" else [alt_flag, *(val if isinstance(val, list) else [val])]
+    jobs = {
+        "primary-flag": lambda: rn.cli({dest: value}),
+        "nothing": lambda: rn.cli({}),
+        "alt-flag": lambda: rn.cli({}, extra_argv=extra),
+        "alt-key-kebab": lambda: rn.cli({}, raw_keys={key: val}),
+        "alt-key-snake": lambda: rn.cli({}, raw_keys={key.replace("-", "_"): val}),
+    }
+    res = dict(zip(jobs, pmap(lambda f: f(), list(jobs.values()))))
+    ref = res["primary-flag"]
+    camp.evaluations += len(jobs)
+    camp.hit("alias-spelling:" + alt_flag)
+    if ref["rc"] == 0 and not same(ref, res["nothing"]):
+        camp.distinct.add(("alias", dest, alt_flag))
+    else:
+        camp.hit("alias-spelling:no-visible-effect-on-this-document")
+    for way in ("alt-flag", "alt-key-kebab", "alt-key-snake"):
+        if not same(res[way], ref):
+            ck.fail({"oracle": "three_ways", "option": dest, "value": value, "odd_one": "cli" if way == "alt-flag" else "pyproject",
+                     "mechanism": "one-side-fails" if res[way]["rc"] != ref["rc"] else "output-differs", "spelling": key, "way": way},
+                    {"kind": "alias_spelling", "dest": dest, "alt_flag": alt_flag, "value": value},
+                    f"`{alt_flag}` is a spelling of `{tab[dest]['flag']}` on the command line; given as {way} ({key if way != 'alt-flag' else alt_flag}): {describe(res[way])}; "
+                    f"primary flag: {describe(ref)}; first difference: {first_diff(res[way]['output'], ref['output'])}"
+                    + ("; equal to the run without the option" if same(res[way], res["nothing"]) else ""),
+                    "the same result as the primary flag")
+            return
+    if len(camp.samples) < 4:
+        camp.samples.append({"option": dest, "alternative_spelling": alt_flag, "result": "flag and both pyproject keys equal the primary flag"})
+
+
+def campaign_alias_spellings(ck: Check, rn: Runner) -> None:
+    camp = ck.campaign("e2e: every alternative spelling of an option (second option string of its argparse action) as flag and as "
+                       "pyproject.toml key (kebab / snake) vs the primary flag")
+    t0 = time.time()
+    for dest, _kind, alt in alias_spellings():
+        if dest not in rn.tab:
+            continue
+        for v in (rn.tab[dest]["values"] or [])[:2]:
+            alias_case(ck, camp, rn, dest, alt, v)
+    camp.wall_s = time.time() - t0
+
+
+EXHAUSTIVE_BOTH = ["output_model_type"]   # options other settings are derived from: every ordered pair of values, always
+
+
 def campaign_both_present(ck: Check, rn: Runner, cache: dict) -> None:
     camp = ck.campaign("e2e: option present in pyproject.toml AND on the command line with different values → the command line wins")
     t0 = time.time()
@@ -481,11 +547,26 @@ def campaign_both_present(ck: Check, rn: Runner, cache: dict) -> None:
     if ck.tier == "quick":
         jobs = rng.sample(jobs, 8)
     jobs = must + jobs
+    # options that imply other settings: every ordered pair (pyproject value, command-line value); in the thorough tier
+    # every enum option
+    for d in sorted(rn.tab):
+        o = rn.tab[d]
+        if o["kind"] != "enum" or d in SKIP_E2E or not (d in EXHAUSTIVE_BOTH or ck.tier == "thorough"):
+            continue
+        vals = o["values"]
+        for i, v_py in enumerate(vals):
+            # quick: every value once in pyproject.toml and once on the command line (cyclic); thorough: all ordered pairs
+            for v_cli in (vals if ck.tier == "thorough" else [vals[(i + 1) % len(vals)]]):
+                if v_py != v_cli and not any(j[0] == d and j[1] == v_cli and j[2] == v_py for j in jobs):
+                    jobs.append((d, v_cli, v_py, None))
 
     def one(job):
         d, v_cli, v_py, expect = job
+        if expect is None:
+            key = json.dumps({d: v_cli}, sort_keys=True)
+            expect = cache[key]["cli"] if key in cache and "cli" in cache[key] else rn.cli({d: v_cli})
         got = rn.cli({d: v_cli}, {d: v_py})
-        return job, got
+        return (d, v_cli, v_py, expect), got
 
     for (d, v_cli, v_py, expect), got in pmap(one, jobs):
         camp.evaluations += 1
@@ -654,6 +735,8 @@ def rerun(ck: Check, rn: Runner, inp: dict) -> None:
         three_ways(ck, camp, rn, inp["opts"], rn.cli({}))
     elif kind == "split":
         split_case(ck, camp, rn, inp["a"], inp["b"])
+    elif kind == "alias_spelling":
+        alias_case(ck, camp, rn, inp["dest"], inp["alt_flag"], inp["value"])
     elif kind == "both_present":
         expect = rn.cli({inp["option"]: inp["cli"]})
         got = rn.cli({inp["option"]: inp["cli"]}, {inp["option"]: inp["pyproject"]})
@@ -687,6 +770,7 @@ def run(ck: Check) -> None:
     rn = Runner()
     try:
         cache = campaign_three_ways(ck, rn)
+        campaign_alias_spellings(ck, rn)
         campaign_both_present(ck, rn, cache)
         campaign_split(ck, rn)
         campaign_exit(ck, rn)
